@@ -5,7 +5,7 @@ cd /verif
 list="${*:-$(ls seeded)}"
 det=0; miss=0
 for d in $list; do
-  pid=${d%%-*}
+  pid=$(python3 -c "import json;print(json.load(open('/verif/seeded/$d/meta.json')).get('checked_by','${d%%-*}'))")
   out=$(./tools/run_seed.sh /verif/seeded/$d/patch.diff $pid quick)
   code=$(echo "$out" | sed -n 's/.*exit=\([0-9]*\).*/\1/p')
   if [ "$code" = "1" ]; then det=$((det+1)); else miss=$((miss+1)); fi
